@@ -94,7 +94,8 @@ CLAIMED = {
          'every run (curve arithmetic of schnorr.py, 64-digit hex formatting) and proved equal to the models, so "the derived secret is the discrete log of the committed '
          'key" is a theorem about the translated code (no curve hypothesis); so are get_tag_hashed_merkle_root (recursion under a depth bound proved never exhausted), '
          'calculate_tweak and PrivateKey._sign_taproot_input itself (key objects as their bytes), hence "the key-path signature verifies under the output key" holds of the '
-         'translated signer. PrivateKey / PublicKey object plumbing and sign_taproot_input (digest + signer) are tied by the correspondence run, in which every '
+         'translated signer. The public sign_taproot_input is translated as well and proved to be the C05 model digest (key path: extension 0, no leaf; script path: extension 1, the '
+         'given leaf, leaf version 0xc0 — the digest method\'s own defaults read from its definition) followed by the translated signer. PrivateKey / PublicKey object plumbing is tied by the correspondence run, in which every '
          'implementation signature is also verified by the Spec verifier under the Spec BIP341 digest.',
          NOTE_COMMON + 'SHA-256 parameter. CurveLaws is discharged (no curve hypothesis in the _unconditional theorems).',
          'Lean 4 proof over translated source (signer, tweaks, tree; curve group law proved via Mathlib) + differential correspondence', '6/C07'),
@@ -112,7 +113,8 @@ CLAIMED = {
          '(low-R grinding on byte 3, decode, low-S, re-encode, hash-type byte) yields a strictly DER (BIP66) signature with r < 2^255, the low '
          'representative of s and exactly the hash-type byte; replacing s by n-s preserves validity (secp256k1 group law proved, no hypothesis). Tier T: _sign_input is '
          're-translated on every run (signer and DER codec of python-ecdsa as parameters, the unbounded grinding loop under a bound parameter) and proved to return a signature exactly '
-         'when the model does, the same one, so the theorem is about the translated code. python-ecdsa (RFC6979 signing, DER '
+         'when the model does, the same one, so the theorem is about the translated code; the public methods sign_input and sign_segwit_input are translated too and proved to be '
+         'the C03 / C04 model digest of that input, script code, amount and hash type followed by the translated signer on exactly that digest (the signer a function of the digest it is handed). python-ecdsa (RFC6979 signing, DER '
          'codec) is a parameter whose per-attempt output is logged from the real library and replayed through the model each run; the Spec predicate '
          '(strict DER, low S, low R, valid for d*G under the library digest) is evaluated on every implementation signature; determinism observed.',
          NOTE_COMMON + 'python-ecdsa signing is a parameter (validity of its signatures is checked on samples, not proved). CurveLaws is proved (BU/Proofs/CurveLawsFinal.lean), the _unconditional corollary carries no curve hypothesis.',
